@@ -42,9 +42,10 @@ type c17plan struct {
 }
 
 func c17(c *wk.Ctx) {
-	c.Note("rule", "each plan: one endpoint over a harness stream, 2-12 goroutines released by a barrier doing PRNG-chosen MakeHandler / AddHandler / ReceiveAny (filters: never/always/pattern x keep/self-remove after n, with scheduling yields inside the filter), RemoveHandler (live, stale, unknown, negative ids), peer frames, then local Close() or peer close, possibly concurrent with further operations; in a quarter of the plans the stream's Close reports an error although it closes. Oracle at quiescence (decided by the goroutine-state quiescence detector, not a timeout): every handler whose MakeHandler returned before shutdown started has closer==1 and queue closed once; others <=1; no filter match after the closer ran; RemoveHandler of unknown/removed ids returns an error; an id is never handed out while its previous holder is still open; no panic (child crash), no deadlock; stream blocked-reply = the connection is shut down (locally or by the peer) while the endpoint is blocked writing a 'consumer blocked' reply to a peer that does not read (bounded harness stream): the shutdown must complete and every handler be closed once. Stream unknown-ids = with 0-25 handlers registered and a few removed, RemoveHandler of every id from -3 to n+24 that is not held returns an error, does not panic and closes nothing. Distinct non-trivial = distinct plans in which at least two goroutines operated on the handler table and shutdown closed at least one handler.")
+	c.Note("rule", "each plan: one endpoint over a harness stream, 2-12 goroutines released by a barrier doing PRNG-chosen MakeHandler / AddHandler / ReceiveAny (filters: never/always/pattern x keep/self-remove after n, with scheduling yields inside the filter), RemoveHandler (live, stale, unknown, negative ids), peer frames, then local Close() or peer close, possibly concurrent with further operations; in a quarter of the plans the stream's Close reports an error although it closes. Oracle at quiescence (decided by the goroutine-state quiescence detector, not a timeout): every handler whose MakeHandler returned before shutdown started has closer==1 and queue closed once; others <=1; no filter match after the closer ran; RemoveHandler of unknown/removed ids returns an error; an id is never handed out while its previous holder is still open; no panic (child crash), no deadlock; stream blocked-reply = the connection is shut down (locally or by the peer) while the endpoint is blocked writing a 'consumer blocked' reply to a peer that does not read (bounded harness stream): the shutdown must complete and every handler be closed once. Stream register-burst = 12 rounds per case of 4-16 goroutines spinning on a barrier and then registering 1-4 handlers each on a fresh endpoint (some earlier handlers removed first, so that freed slots are reused): identifiers held at the same time are pairwise distinct and Close() runs every close callback once. Stream unknown-ids = with 0-25 handlers registered and a few removed, RemoveHandler of every id from -3 to n+24 that is not held returns an error, does not panic and closes nothing. Distinct non-trivial = distinct plans in which at least two goroutines operated on the handler table and shutdown closed at least one handler.")
 	c.Cases("plan", c.Pick(5000, 600000), func(i int, rng *rand.Rand) { c17one(c, i, rng) })
 	c.Cases("unknown-ids", c.Pick(300, 20000), func(i int, rng *rand.Rand) { c17unknown(c, i, rng) })
+	c.Cases("register-burst", c.Pick(150, 10000), func(i int, rng *rand.Rand) { c17burst(c, i, rng) })
 	c.Cases("blocked-reply", c.Pick(60, 10000), func(i int, rng *rand.Rand) { c17blocked(c, i, rng) })
 }
 
@@ -112,6 +113,123 @@ func c17unknown(c *wk.Ctx, i int, rng *rand.Rand) {
 	if c.WantSample() && i%50 == 0 {
 		c.Sample(map[string]interface{}{"stream": "unknown-ids", "handlers": n, "removed_first": len(removed), "unknown_ids_tried": checked})
 	}
+}
+
+// c17burst: nothing but registrations, as concurrent as the machine allows: g goroutines spin on a
+// barrier and then register k handlers each (MakeHandler / AddHandler / ReceiveAny) on one endpoint,
+// some rounds with earlier handlers removed first so that freed slots are reused. All identifiers
+// held at the same time are distinct; after Close every handler is closed exactly once.
+func c17burst(c *wk.Ctx, i int, rng *rand.Rand) {
+	rounds := 12
+	for round := 0; round < rounds; round++ {
+		var progress int64
+		a, b := ctl.Pair("endpoint", "peer", &progress)
+		ep := qnet.NewEndPoint(a)
+		g := 4 + rng.Intn(13)
+		k := 1 + rng.Intn(4)
+		// earlier handlers, some removed: the burst then races for the freed slots
+		pre := rng.Intn(6)
+		preIDs := make([]int, pre)
+		preClosers := make([]int32, pre)
+		for x := 0; x < pre; x++ {
+			x := x
+			preIDs[x] = ep.MakeHandler(func(*qnet.Header) (bool, bool) { return false, true }, make(chan *qnet.Message, 1), func(error) { atomic.AddInt32(&preClosers[x], 1) })
+		}
+		held := map[int]string{}
+		for x := 0; x < pre; x++ {
+			if rng.Intn(2) == 0 {
+				ep.RemoveHandler(preIDs[x])
+			} else {
+				held[preIDs[x]] = fmt.Sprintf("earlier handler %d", x)
+			}
+		}
+		type reg struct {
+			id      int
+			closers *int32
+			how     string
+		}
+		regs := make([][]reg, g)
+		kinds := make([]int, g)
+		for w := range kinds {
+			kinds[w] = rng.Intn(3)
+		}
+		var ready, done sync.WaitGroup
+		var start int32
+		ready.Add(g)
+		done.Add(g)
+		for w := 0; w < g; w++ {
+			w := w
+			go func() {
+				defer done.Done()
+				ready.Done()
+				for spins := 0; atomic.LoadInt32(&start) == 0; spins++ { // spin: all registrations start at the same moment
+					if spins > 5000 {
+						runtime.Gosched()
+					}
+				}
+				for x := 0; x < k; x++ {
+					n := new(int32)
+					switch kinds[w] {
+					case 0:
+						id := ep.MakeHandler(func(*qnet.Header) (bool, bool) { return false, true }, make(chan *qnet.Message, 1), func(error) { atomic.AddInt32(n, 1) })
+						regs[w] = append(regs[w], reg{id, n, "MakeHandler"})
+					case 1:
+						id := ep.AddHandler(func(*qnet.Header) (bool, bool) { return false, true }, func(*qnet.Message) error { return nil }, func(error) { atomic.AddInt32(n, 1) })
+						regs[w] = append(regs[w], reg{id, n, "AddHandler"})
+					default:
+						id := ep.MakeHandler(func(*qnet.Header) (bool, bool) { return false, true }, make(chan *qnet.Message, 1), func(error) { atomic.AddInt32(n, 1) })
+						regs[w] = append(regs[w], reg{id, n, "MakeHandler"})
+						runtime.Gosched()
+					}
+				}
+			}()
+		}
+		ready.Wait()
+		atomic.StoreInt32(&start, 1)
+		done.Wait()
+		detail := map[string]interface{}{"goroutines": g, "registrations_each": k, "earlier_handlers": pre, "round": round}
+		bad := false
+		for w := range regs {
+			for x, r := range regs[w] {
+				who := fmt.Sprintf("%s #%d of goroutine %d", r.how, x, w)
+				if other, dup := held[r.id]; dup {
+					c.Viol("register-burst", i, "id=reused-while-open", fmt.Sprintf("identifier %d was handed to %s while %s still holds it", r.id, who, other), detail)
+					bad = true
+				}
+				held[r.id] = who
+			}
+		}
+		ep.Close()
+		b.Close()
+		// Close() runs the close callbacks in goroutines of their own: wait until all have run, or nothing moves any more
+		settled := func() bool {
+			for w := range regs {
+				for _, r := range regs[w] {
+					if atomic.LoadInt32(r.closers) < 1 {
+						return false
+					}
+				}
+			}
+			return true
+		}
+		if v, _ := stuck.WaitFunc(settled, &progress, 2*time.Minute); v == stuck.Watchdog {
+			c.Inconclusive("register-burst", i, "watchdog")
+			return
+		}
+		for w := range regs {
+			for x, r := range regs[w] {
+				if n := atomic.LoadInt32(r.closers); n != 1 && !bad {
+					c.Viol("register-burst", i, fmt.Sprintf("closer=ran-%d-times/burst", n), fmt.Sprintf("after Close() the close callback of %s #%d of goroutine %d (id %d) had run %d times", r.how, x, w, r.id, n), detail)
+					bad = true
+				}
+			}
+		}
+		c.Count("concurrent_registrations", int64(g*k))
+		if bad {
+			return
+		}
+	}
+	c.Nontrivial(wk.Hash64("C17burst", i))
 }
 
 // c17blocked: the endpoint is busy answering "consumer blocked" to a peer that does not read (its
